@@ -323,9 +323,10 @@ DependedBindingsKept(N, P, top) ==
         LET used == {N[e].ns} \cup {N[a].ns : a \in SeqRange(AttrKids(N, e))} IN
         \A b \in InScope(N, e) : b[2] \in used /\ b[2] # "" => b \in InScope(P, e)
 
+\* the node whose subtree is repaired: the element itself, or the document / fragment (all its top-level elements)
 CmpTarget(N, x) ==
     IF N[x].k = "doc"
-    THEN LET es == SelectSeq(NormKids(N, x), LAMBDA y : N[y].k = "elem") IN IF Len(es) = 0 THEN 0 ELSE es[1]
+    THEN LET es == SelectSeq(NormKids(N, x), LAMBDA y : N[y].k = "elem") IN IF Len(es) = 0 THEN 0 ELSE x
     ELSE IF N[x].k = "elem" THEN x ELSE 0
 
 CmpOk(N, P, x) ==
@@ -359,7 +360,7 @@ ElementOnlyOps == {"set_element_name", "set_attribute", "remove_attribute", "att
     "attr_entry_vacant_insert", "set_namespace", "remove_namespace", "ns_insert", "ns_remove", "ns_clear",
     "ns_get_mut", "ns_entry_or_insert", "ns_entry_occupied_remove"}
 
-RelationalOps == {"clone_node", "clone_with_prefixes", "cmp", "dedup", "parse", "parse_fragment"}
+RelationalOps == {"clone_node", "clone_with_prefixes", "cmp", "dedup", "dedup2", "parse", "parse_fragment"}
 
 A1(e) == IF Len(e.a) >= 1 THEN e.a[1] ELSE 0
 A2(e) == IF Len(e.a) >= 2 THEN e.a[2] ELSE 0
@@ -453,7 +454,8 @@ EnumAllowed(e, N, cons) ==
                    IF hitN = 0 THEN {OutS(insN.n, e.uri, TRUE)} ELSE {OutS(N, N[hitN].u, TRUE)}
             [] e.op = "ns_entry_occupied_remove" ->
                    IF hitN = 0 THEN {OutS(N, "", FALSE)} ELSE {OutS(remN.n, N[hitN].u, TRUE)}
-            [] e.op = "riw" -> Riw(N, x)
+            [] e.op \in {"riw", "riw2"} -> Riw(N, x)       \* (a second application changes nothing: TLC-checked RiwIdempotent)
+            [] e.op = "clone_store" -> OkSet({N})
             [] e.op = "set_cons" -> OkSet({N})
             [] OTHER -> {}
     IN IF e.op \in ElementOnlyOps /\ N[x].k # "elem"
@@ -484,7 +486,7 @@ Accepts(e, N, cons, o, prevWasSameDedup) ==
       [] e.op = "cmp" ->
              IF CmpTarget(N, x) = 0 THEN o.res = "err" /\ P = N
              ELSE o.res = "ok" /\ CmpOk(N, P, x)
-      [] e.op = "dedup" ->
+      [] e.op \in {"dedup", "dedup2"} ->
              /\ o.res = "ok" /\ OnlyRemovesDecls(N, P, x) /\ DedupKeepsUsable(N, P, x)
              /\ prevWasSameDedup => P = N
       [] e.op \in {"parse", "parse_fragment"} ->
